@@ -41,13 +41,14 @@ type Epoch struct {
 }
 
 type State struct {
-	cond Term
-	heap map[string]Term
-	ep   *Epoch
-	W    Term
-	tok  Term // changes whenever memory that existed at function entry (or escaped fresh memory) is written
-	ftok Term // changes on every write
-	esc  Term // Bool: a pointer may have been stored into pre-existing memory (fresh objects may be reachable from old ones)
+	cond   Term
+	heap   map[string]Term
+	ep     *Epoch
+	W      Term
+	tok    Term            // changes whenever memory that existed at function entry (or escaped fresh memory) is written
+	ftok   Term            // changes on every write
+	called map[string]Term // Bool per function key: has it been called on this path (since the last loop head)
+	esc    Term            // Bool: a pointer may have been stored into pre-existing memory (fresh objects may be reachable from old ones)
 }
 
 func (s *State) clone() *State {
@@ -55,7 +56,11 @@ func (s *State) clone() *State {
 	for k, v := range s.heap {
 		h[k] = v
 	}
-	return &State{cond: s.cond, heap: h, ep: s.ep, W: s.W, tok: s.tok, ftok: s.ftok, esc: s.esc}
+	cl := make(map[string]Term, len(s.called))
+	for k, v := range s.called {
+		cl[k] = v
+	}
+	return &State{cond: s.cond, heap: h, ep: s.ep, W: s.W, tok: s.tok, ftok: s.ftok, esc: s.esc, called: cl}
 }
 
 type EntrySym struct {
@@ -234,6 +239,21 @@ func (g *Gen) assumeWF(st *State, v Val) {
 				tImp(tEq(ptr, intLit(0)), tEq(cp, intLit(0)))))
 		case KIfaceTag:
 			g.assume(st.cond, tImp(tEq(v.Comps[i], intLit(0)), tEq(v.Comps[i+1], intLit(0))))
+			// a pointer held in an interface refers to allocated memory
+			var ptags []int64
+			for n, t := range tagTypes {
+				if _, ok := under(t).(*types.Pointer); ok {
+					ptags = append(ptags, n)
+				}
+			}
+			sort.Slice(ptags, func(a, b int) bool { return ptags[a] < ptags[b] })
+			if len(ptags) > 0 && len(ptags) <= 400 {
+				var alts []Term
+				for _, n := range ptags {
+					alts = append(alts, tEq(v.Comps[i], intLit(n)))
+				}
+				g.assume(st.cond, tImp(tOr(alts...), tAnd(tCmp("<=", intLit(0), v.Comps[i+1]), tCmp("<", v.Comps[i+1], st.W))))
+			}
 		}
 	}
 }
@@ -427,6 +447,26 @@ func (g *Gen) mergeStates(sts []*State) *State {
 	out.tok = g.name("tok", out.tok)
 	out.ftok = g.name("ftok", out.ftok)
 	out.esc = g.name("esc", out.esc)
+	out.called = map[string]Term{}
+	ck := map[string]bool{}
+	for _, s := range sts {
+		for k := range s.called {
+			ck[k] = true
+		}
+	}
+	for k := range ck {
+		get := func(s *State) Term {
+			if t, ok := s.called[k]; ok {
+				return t
+			}
+			return boolLit(false)
+		}
+		t := get(sts[len(sts)-1])
+		for i := len(sts) - 2; i >= 0; i-- {
+			t = tIte(sts[i].cond, get(sts[i]), t)
+		}
+		out.called[k] = g.name("called", t)
+	}
 	return out
 }
 
